@@ -572,6 +572,128 @@ example : (step clashW (.replace "n0" { label := "r", ins := [("a", 20), ("b", 2
       = clashW.chans .inputs := by
   decide
 
+/-! ## Pulls, re-labelling of held children, runs that do not reach every child -/
+
+/-- **A pull changes nothing the workflow IO is built from** — whether the upstream run succeeded
+or raised: the temporary `label+id` labels are put back node by node (a `finally`), so the world
+after `child.pull()` / `child()` is the world before (values aside, which the run proper sets);
+both panels are literally as before. -/
+theorem C15_pull_frame (w : W) (l : String) (fails : Bool) : (step w (.pull l fails)).1 = w := by
+  simp only [step, pullChild]
+  split
+  · rfl
+  · simp [labelBack_labelTemp]
+
+/-- … and that is what the `finally` is for: without the restoration on the failure path a pull
+that fails upstream leaves the temporary labels, and the workflow IO is keyed by them. -/
+theorem C15_pull_no_restore_witness :
+    ∃ (w : W) (l : String), (pullChild false w l true).panel .inputs ≠ w.panel .inputs ∧
+      (pullChild false w l false) = w := by
+  refine ⟨readmeW, "n1", by decide, ?_⟩
+  simp only [pullChild]
+  split
+  · rfl
+  · simp [labelBack_labelTemp]
+
+/-- **A refused re-labelling leaves everything as it was** (a label with the delimiter, a
+non-string, the label of a sibling, a name that is an attribute of the workflow, a node that is
+no child): the IO is literally as before. -/
+theorem C15_relabel_refused_noop (w : W) (o : String) (n : LabelArg)
+    (h : (step w (.relabel o n)).2 ≠ .ok) : (step w (.relabel o n)).1 = w := by
+  simp only [step, relabelChild] at h ⊢
+  split
+  · rfl
+  · cases n with
+    | attr _ => rfl
+    | nonStr => rfl
+    | str s =>
+      simp only at h ⊢
+      split
+      · rfl
+      · split
+        · rfl
+        · split
+          · rfl
+          · rename_i h1 h2 h3 h4
+            simp [h1, h2, h3, h4] at h
+
+/-- **An accepted re-labelling** to a different label files the very same child (same channels)
+under the new label at the end of `children`; nothing else changes, and both panels are the set
+expression over the children with that label. -/
+theorem C15_relabel_ok (w : W) (o s : String) (hne : s ≠ o) (h : (step w (.relabel o (.str s))).2 = .ok) :
+    let w' := (step w (.relabel o (.str s))).1
+    (∃ c ∈ w.children, c.label = o ∧
+      w'.children = w.children.filter (fun d => !(d.label == o)) ++ [{ c with label := s }]) ∧
+    w'.g = w.g ∧ w'.imap = w.imap ∧ w'.omap = w.omap ∧
+    ∀ sd p, w'.panel sd = some p → p = w'.spec sd := by
+  intro w'
+  refine ⟨?_, ?_, (relabelChild_maps false w o _).1, (relabelChild_maps false w o _).2,
+    fun sd p hp => C15_io_spec w' sd p hp⟩
+  · have hw' : w' = (relabelChild false w o (.str s)).1 := rfl
+    simp only [step, relabelChild] at h
+    unfold relabelChild at hw'
+    cases hf : w.children.find? (fun d => d.label == o) with
+    | none => simp [hf] at h
+    | some c =>
+      have hmem := List.mem_of_find?_eq_some hf
+      have hlab : c.label = o := by simpa using List.find?_some hf
+      simp only [hf] at h hw'
+      have h0 : (s == o) = false := by simpa using hne
+      simp only [h0, Bool.false_eq_true, if_false] at h hw'
+      split at h
+      · simp at h
+      · rw [if_neg (by assumption)] at hw'
+        split at h
+        · simp at h
+        · rw [if_neg (by assumption)] at hw'
+          exact ⟨c, hmem, hlab, by rw [hw']⟩
+  · show (relabelChild false w o (.str s)).1.g = w.g
+    unfold relabelChild
+    split
+    · rfl
+    · simp only
+      split
+      · rfl
+      · split
+        · rfl
+        · split <;> rfl
+
+/-- popping the stale entry BEFORE the label is validated is not the same: a refused label then
+drops the child, and its open channels, from the workflow IO -/
+theorem C15_relabel_pop_first_witness :
+    ∃ (w : W) (o : String) (n : LabelArg), (relabelChild true w o n).2 ≠ .ok ∧
+      (relabelChild true w o n).1.panel .inputs ≠ w.panel .inputs ∧ (relabelChild false w o n).1.panel .inputs = w.panel .inputs :=
+  ⟨readmeW, "n0", .str "in/valid", by decide, by decide, by decide⟩
+
+/-- **The run's return dictionary has exactly the keys of the outputs panel**, whatever the values
+are — also the `NOT_DATA` placeholder of a child the execution flow did not reach (an `If` branch
+not taken, manual starting nodes, a child that returns `NOT_DATA`). -/
+theorem C15_return_keys (w : W) (r : List (String × Val)) (h : runReturn w = some r) :
+    r.map Prod.fst = (w.spec .outputs).map Prod.fst ∧
+    ∀ p, w.panel .outputs = some p → r.map Prod.fst = p.map Prod.fst := by
+  have := C15_return w r h
+  refine ⟨by rw [this, List.map_map]; rfl, ?_⟩
+  intro p hp
+  rw [this, ← C15_io_spec w .outputs p hp, List.map_map]; rfl
+
+/-- leaving out the outputs that still hold `NOT_DATA` returns fewer keys than the panel has -/
+theorem C15_return_skip_nd_witness :
+    ∃ w : W, (runReturnSkipND w).map (·.map Prod.fst) ≠ (w.panel .outputs).map (·.map Prod.fst) :=
+  ⟨readmeW, by decide⟩
+
+example : runReturn readmeW = some [("mid", "ND"), ("y", "ND")] ∧ runReturnSkipND readmeW = some [] := by decide
+/-- the temporary labels of the pull on `n1` (data tree `n1`, `n0`), and their restoration -/
+example : (pullChild false readmeW "n1" true).children.map (·.label) = ["n0#0", "n1#4"] ∧
+    (pullChild false readmeW "n1" true).panel .inputs = some [("n0#0__a", 0), ("n0#0__b", 1), ("n0#0__c", 2),
+      ("n1#4__b", 5), ("n1#4__c", 6)] ∧ dataTree readmeW "n0" = ["n0"] := by decide
+/-- re-labellings on the example: accepted (child moves to the end), refused five ways -/
+example : (step readmeW (.relabel "n0" (.str "first"))).2 = .ok ∧
+    (step readmeW (.relabel "n0" (.str "first"))).1.panel .inputs =
+      some [("n1__b", 5), ("n1__c", 6), ("first__a", 0), ("first__b", 1), ("first__c", 2)] ∧
+    (step readmeW (.relabel "n0" (.str "n1"))).2 = .refused ∧ (step readmeW (.relabel "n0" (.str "a/b"))).2 = .valueErr ∧
+    (step readmeW (.relabel "n0" .nonStr)).2 = .typeErr ∧ (step readmeW (.relabel "n0" (.attr "inputs"))).2 = .refused ∧
+    (step readmeW (.relabel "zz" (.str "q"))).2 = .refused ∧ (step readmeW (.relabel "n0" (.str "n0"))).2 = .ok := by decide
+
 /-! ## Map objects with identity: who is affected by an edit
 
 `Model/MapHeap.lean`: map objects live in a heap, the workflow under study (`wfIn`, `wfOut`), a
@@ -802,3 +924,10 @@ end PwVerif.C15
 #print axioms PwVerif.C15.C15_reload_same
 #print axioms PwVerif.C15.C15_at_any_moment_heap
 #print axioms PwVerif.C15.C15_replace_panel
+#print axioms PwVerif.C15.C15_pull_frame
+#print axioms PwVerif.C15.C15_pull_no_restore_witness
+#print axioms PwVerif.C15.C15_relabel_refused_noop
+#print axioms PwVerif.C15.C15_relabel_ok
+#print axioms PwVerif.C15.C15_relabel_pop_first_witness
+#print axioms PwVerif.C15.C15_return_keys
+#print axioms PwVerif.C15.C15_return_skip_nd_witness
